@@ -1,13 +1,13 @@
 """K-dgrp (C04, repeating groups): MessageBase::decode_group (runtime/message.cpp) with the inline helpers it runs through -- MessageBase::add_field(fnum, itr, pos, what, check),
 FieldTraits::get / has / getPos / set / is_group (include/fix8) -- bodies from the clang AST, over the ghost token sequence of K-dec.
 
-BOUNDED: texts of at most 3 tokens, a group definition of at most 3 member traits (number, position inside the group, trait bits), at most 3 elements, no nested groups.
+BOUNDED: texts of at most 2 tokens, a group definition of at most 3 member traits (number, position inside the group, trait bits), at most 3 elements, no nested groups.
   every element handed to the group starts with the group's first field (the member at position 1);
   every consumed token is a member of the group and becomes exactly one field of the current element, with its own tag, built from its own value text, at consecutive positions;
   a member that is already present in the current element starts the next element; the first token that is not a member ends the group and is not consumed.
 """
 from specs import k_copy as _kc
-NTOK = 3
+NTOK = 2
 PRE_STRUCTS = _kc.PRE_STRUCTS + r'''
 struct sv_m { const char *data; unsigned long size; };
 struct be_m { unsigned short _fnum; void *_rlm; int _create; };
@@ -18,7 +18,7 @@ PRELUDE = r'''
 #include <stdlib.h>
 #define VACUITY_PROBE() __CPROVER_assert(0, "vacuity-probe")
 unsigned nondet_uint(void); unsigned short nondet_ushort(void); _Bool nondet_bool(void); long nondet_long(void);
-#define NTOK 3
+#define NTOK 2
 char g_raw[4096]; unsigned g_ntok; unsigned g_off[NTOK + 1]; unsigned short g_tag[NTOK]; int g_cur = -1;
 struct bf_m g_bf[NTOK + 1]; int g_nbf; long g_bf_from[NTOK + 1];
 /* ---- ASSUMED models (as in K-dec / K-copy) ---- */
@@ -67,7 +67,7 @@ struct oss_m { int dummy; }; void oss_ctor(struct oss_m *o) { }
 POST = r'''
 struct FIX8_MessageBase *gb_create_group(const struct gb_m *g, _Bool deep)
 {
-  __CPROVER_assume(g_created < 4);
+  __CPROVER_assume(g_created < 3);
   struct FIX8_MessageBase *e = &g_elem_pool[g_created++];
   e->_fp._presence = g_group_def; e->_fields.n = 0; e->_pos.n = 0;            /* a fresh element of this group: the definition's traits, nothing present */
   return e;
@@ -76,7 +76,7 @@ static _Bool member(unsigned short tag) { for (unsigned i = 0; i < 3; ++i) if (i
 static unsigned short member_pos(unsigned short tag) { for (unsigned i = 0; i < 3; ++i) if (i < g_group_def.n && g_group_def.arr[i]._fnum == tag) return g_group_def.arr[i]._pos; return 0; }
 void h_decode_group(void)
 {
-  struct FIX8_MessageBase m, pool[4]; struct sv_m from; g_elem_pool = pool; g_created = 0; g_pushed = 0; g_group_known = nondet_bool(); g_nbf = 0; g_cur = -1; __exc = 0;
+  struct FIX8_MessageBase m, pool[3]; struct sv_m from; g_elem_pool = pool; g_created = 0; g_pushed = 0; g_group_known = nondet_bool(); g_nbf = 0; g_cur = -1; __exc = 0;
   /* the text */
   g_ntok = nondet_uint(); __CPROVER_assume(g_ntok <= NTOK);
   g_off[0] = nondet_uint(); __CPROVER_assume(g_off[0] <= 64);
@@ -176,9 +176,9 @@ UNIT = dict(
     ],
     postlude=POST,
     proofs=[
-        dict(name='decode_group', harness='h_decode_group', properties=['C04'], solvers=['z3', 'cadical'], timeout=dict(quick=900, thorough=1800), floor=6, level='bounded', unwind=6, object_bits=10),
+        dict(name='decode_group', harness='h_decode_group', properties=['C04'], solvers=['cadical', 'kissat'], timeout=dict(quick=900, thorough=1800), floor=6, level='bounded', unwind=6, object_bits=10),
     ],
     trusted_base=['ASSUMED: the tokeniser hands out the ghost tokens; Presence::find / end, trait bits, F8MetaCntx::find_be, the field instantiator, GroupBase::create_group (a fresh element with the '
                   'group definition\'s traits) and operator<< (logs the element), std::unique_ptr (model bodies in specs/k_dgrp.py)'],
-    assumptions=['bounded: 3 tokens, group definitions of at most 3 members, no nested groups (has_group_count is false)'],
+    assumptions=['bounded: 2 tokens, group definitions of at most 3 members, no nested groups (has_group_count is false)'],
 )
